@@ -60,7 +60,7 @@ func setup() {
 	client.SetClientSignatureScheme("ed25519")
 	round.SetupEntity(memorystore.GetStorageProvider())
 	block.SetupEntity(memorystore.GetStorageProvider())
-	for i := 0; i < 8; i++ {
+	for i := 0; i < 32; i++ {
 		pk := make([]byte, 32)
 		pk[0], pk[1] = byte(i+1), 0x37
 		n := node.Provider()
@@ -70,7 +70,7 @@ func setup() {
 		}
 		parties = append(parties, n)
 	}
-	for k := 1; k <= len(parties); k++ {
+	for k := 1; k <= 8; k++ {
 		p := node.NewPool(node.NodeTypeMiner)
 		for _, n := range parties[:k] {
 			if err := p.AddNode(n); err != nil {
@@ -509,6 +509,8 @@ type stressResult struct {
 	LostOps []string `json:"lost_ops,omitempty"` // the op set of the first such trial
 	Held    int      `json:"held"`               // trials after which the round mutex was left locked
 	HeldOps []string `json:"held_ops,omitempty"`
+	Over    int      `json:"over"` // share bursts that ended with more than threshold shares stored or accepted
+	OverMsg string   `json:"over_msg,omitempty"`
 	Wiped   int      `json:"wiped"` // restart-loop trials: the round fell below Share / lost its block / accepted a Restart after AddNotarizedBlock returned
 	Hang    bool     `json:"hang"`  // an operation did not return within the watchdog time
 	HangOps []string `json:"hang_ops,omitempty"`
@@ -557,7 +559,7 @@ func stressChild(d time.Duration, mixes [][]string) {
 			}
 		}
 	}()
-	per := d / time.Duration(len(mixes)+1)
+	per := d / time.Duration(len(mixes)+2)
 	for mi := range mixes {
 		mix := mixes[mi]
 		curMix.Store(&mix)
@@ -633,6 +635,64 @@ func stressChild(d time.Duration, mixes [][]string) {
 		}
 		stop.Store(true)
 	}
+	// G goroutines each add the share of a distinct miner to one round at the same moment, while
+	// readers hold the read lock (GetVRFShares, GetMinersByRank)
+	if len(mixes) == 0 || len(mixes) == len(stressMixes) {
+		mix := []string{"share-burst"}
+		curMix.Store(&mix)
+		end := time.Now().Add(per)
+		for trial := 0; time.Now().Before(end); trial++ {
+			g := []int{8, 16, 32}[trial%3]
+			thr := trial%5 + 1
+			r := round.NewRound(3)
+			r.SetRandomSeedForNotarizedBlock(7, g)
+			var ready, fin, accepted atomic.Int64
+			var stopReaders atomic.Bool
+			nodes := append([]*node.Node{}, parties[:g]...)
+			for k := 0; k < 2; k++ {
+				go func(k int) {
+					for !stopReaders.Load() {
+						if k == 0 {
+							_ = r.GetMinersByRank(append([]*node.Node{}, nodes...))
+						} else {
+							_ = r.GetVRFShares()
+						}
+					}
+					fin.Add(1)
+				}(k)
+			}
+			for i := 0; i < g; i++ {
+				go func(i int) {
+					sh := &round.VRFShare{}
+					sh.SetParty(parties[i])
+					ready.Add(1)
+					for ready.Load() < int64(g) {
+						runtime.Gosched()
+					}
+					if r.AddVRFShare(sh, thr) {
+						accepted.Add(1)
+					}
+					fin.Add(1)
+				}(i)
+			}
+			for fin.Load() < int64(g) {
+				runtime.Gosched()
+			}
+			stopReaders.Store(true)
+			for fin.Load() < int64(g+2) {
+				runtime.Gosched()
+			}
+			res.Trials++
+			progress.Add(1)
+			stored := len(r.GetVRFShares())
+			if stored > thr || int(accepted.Load()) > thr {
+				if res.Over == 0 {
+					res.OverMsg = fmt.Sprintf("%d goroutines, threshold %d: round holds %d VRF shares, %d calls returned true", g, thr, stored, accepted.Load())
+				}
+				res.Over++
+			}
+		}
+	}
 	// one goroutine loops Restart, another calls AddNotarizedBlock once
 	{
 		mix := []string{"restart-loop", "notarized"}
@@ -703,7 +763,7 @@ func stress(d time.Duration, only []string) stressResult {
 }
 
 func reportStress(rep *vh.Report, res stressResult) {
-	rep.Note("concurrent stress in a child process (SetPhase calls and AddNotarizedBlock released together on fresh rounds, and Restart looping against one AddNotarizedBlock): %d trials, %d ended below the greatest requested phase, %d left the mutex locked, %d restart-after-sharing, hang=%v", res.Trials, res.Lost, res.Held, res.Wiped, res.Hang)
+	rep.Note("concurrent stress in a child process (SetPhase calls and AddNotarizedBlock released together on fresh rounds, bursts of 8-32 concurrent AddVRFShare calls of distinct miners with readers holding the read lock, and Restart looping against one AddNotarizedBlock): %d trials, %d ended below the greatest requested phase, %d left the mutex locked, %d share bursts over the threshold, %d restart-after-sharing, hang=%v", res.Trials, res.Lost, res.Held, res.Over, res.Wiped, res.Hang)
 	rep.CountN("stress-trials", res.Trials)
 	if res.Hang {
 		rep.Violate("C37:operation-does-not-return",
@@ -714,6 +774,11 @@ func reportStress(rep *vh.Report, res stressResult) {
 		rep.Violate("C37:phase-lost-update",
 			fmt.Sprintf("concurrent %v all returned and the phase is below the greatest requested phase in %d of %d trials", res.LostOps, res.Lost, res.Trials),
 			hist{Kind: "stress", Stress: res.LostOps})
+	}
+	if res.Over > 0 {
+		rep.Violate("C37:more-shares-than-threshold",
+			fmt.Sprintf("concurrent AddVRFShare of distinct miners on one round: %s (%d bursts over the threshold)", res.OverMsg, res.Over),
+			hist{Kind: "stress", Stress: []string{"share-burst"}})
 	}
 	if res.Wiped > 0 {
 		rep.Violate("C37:restart-after-sharing-accepted",
@@ -734,8 +799,8 @@ func main() {
 		mixes := stressMixes
 		if ops := os.Getenv("VERIF_ROUNDSM_STRESS_OPS"); ops != "" {
 			mixes = [][]string{strings.Split(ops, ",")}
-			if strings.HasPrefix(ops, "restart-loop") {
-				mixes = nil // only the Restart loop against AddNotarizedBlock
+			if strings.HasPrefix(ops, "restart-loop") || strings.HasPrefix(ops, "share-burst") {
+				mixes = nil // only the share burst and the Restart loop
 			}
 		}
 		stressChild(time.Duration(n)*time.Millisecond, mixes)
